@@ -33,7 +33,7 @@ func (e *Enc) loopHeader(b *ssa.BasicBlock, li *loopInfo, st *State) {
 			e.vals[phi] = entryPhi[phi]
 		}
 		ctx := e.ctxAt(b, 0, st)
-		f := e.evalBoolCtx(inv.C, ctx)
+		f := e.evalInv(inv, ctx)
 		e.obligeAt(e.pc[b], "loop", fmt.Sprintf("loop%d.%s%d.init", li.Ord, inv.Kind, k+1), f, b.Instrs[0].Pos(), "invariant holds on loop entry: "+inv.C.Src)
 	}
 	li.preState = st.clone()
@@ -79,7 +79,7 @@ func (e *Enc) loopHeader(b *ssa.BasicBlock, li *loopInfo, st *State) {
 	// 4. assume invariants
 	ctx := e.ctxAt(b, 0, st)
 	for _, inv := range invs {
-		f := e.evalBoolCtx(inv.C, ctx)
+		f := e.evalInv(inv, ctx)
 		e.assumeHere(f)
 	}
 	if dc, ok := e.loopDecreases(li); ok {
@@ -91,6 +91,14 @@ func (e *Enc) loopHeader(b *ssa.BasicBlock, li *loopInfo, st *State) {
 type loopInv struct {
 	Kind string // inv | auto
 	C    Clause
+	Raw  func() string // when set, evaluates the invariant from the current e.vals
+}
+
+func (e *Enc) evalInv(inv loopInv, ctx *specCtx) string {
+	if inv.Raw != nil {
+		return inv.Raw()
+	}
+	return e.evalBoolCtx(inv.C, ctx)
 }
 
 func (e *Enc) loopDecreases(li *loopInfo) (Clause, bool) {
@@ -105,7 +113,7 @@ func (e *Enc) loopInvariants(li *loopInfo, phis []*ssa.Phi) []loopInv {
 	var out []loopInv
 	if e.ctr != nil {
 		for _, c := range e.ctr.LoopInv[li.Ord] {
-			out = append(out, loopInv{"inv", c})
+			out = append(out, loopInv{Kind: "inv", C: c})
 		}
 	}
 	// automatic: counters that start at a constant and only step upward
@@ -115,6 +123,27 @@ func (e *Enc) loopInvariants(li *loopInfo, phis []*ssa.Phi) []loopInv {
 	for _, phi := range phis {
 		if !isInteger(phi.Type()) || phi.Comment == "" {
 			continue
+		}
+		if phi.Comment == "rangeindex" {
+			// for i := range X: the phi holds the last index visited (starts at -1);
+			// the header compares phi+1 with the bound.
+			var bound ssa.Value
+			for _, ins := range phi.Block().Instrs {
+				if bo, ok := ins.(*ssa.BinOp); ok && bo.Op == token.LSS {
+					if add, ok := bo.X.(*ssa.BinOp); ok && add.Op == token.ADD && add.X == ssa.Value(phi) {
+						bound = bo.Y
+					}
+				}
+			}
+			if bound != nil {
+				ph, bd := phi, bound
+				out = append(out, loopInv{Kind: "auto", C: Clause{Src: "-1 <= rangeindex && (rangeindex < bound || rangeindex == -1)"}, Raw: func() string {
+					p := e.vals[ph].term()
+					n := e.val(bd).term()
+					return "(and (<= (- 1) " + p + ") (or (< " + p + " " + n + ") (= " + p + " (- 1))))"
+				}})
+				continue
+			}
 		}
 		var lo *int64
 		okAll := true
@@ -147,7 +176,7 @@ func (e *Enc) loopInvariants(li *loopInfo, phis []*ssa.Phi) []loopInv {
 			src := fmt.Sprintf("%s >= %d", phi.Comment, *lo)
 			ex, err := ParseSpec(src)
 			if err == nil {
-				out = append(out, loopInv{"auto", Clause{Src: src, E: autoPhiRef{ex, phi}}})
+				out = append(out, loopInv{Kind: "auto", C: Clause{Src: src, E: autoPhiRef{ex, phi}}})
 			}
 		}
 	}
@@ -206,7 +235,7 @@ func (e *Enc) checkBackEdges(b *ssa.BasicBlock, st *State) {
 		}
 		ctx := e.ctxAt(s, 0, st)
 		for k, inv := range invs {
-			f := e.evalBoolCtx(inv.C, ctx)
+			f := e.evalInv(inv, ctx)
 			e.obligeAt(cond, "loop", fmt.Sprintf("loop%d.%s%d.keep@b%d", li.Ord, inv.Kind, k+1, b.Index), f, b.Instrs[len(b.Instrs)-1].Pos(), "invariant preserved by loop body: "+inv.C.Src)
 		}
 		if dc, ok := e.loopDecreases(li); ok {
